@@ -420,3 +420,28 @@ for n in C04Q:
 for n in C04T:
     H("C04", "similarity_defaults", n, tier="thorough", mem="heavy", tt=3600, args=FS, bounds=n[4:])
 H("C04", "similarity_defaults", "c04_twin_must_fail", expect="fail", args=FS)
+
+# ------------------------------------------------------------------------------------------------
+# C13
+# ------------------------------------------------------------------------------------------------
+PROPERTIES["C13"] = dict(
+    functions=["HpoSet::child_nodes", "without_obsolete / remove_obsolete", "with_replaced_obsolete / replace_obsolete", "without_modifier / remove_modifier",
+               "len / is_empty / contains / get / iter"],
+    bounds="direct-state ontology with terms 1,2,3; member sets per instance ({1,2,3}, two 2-element sets); symbolic: the ids of every ancestor (1-2 per term, any u32), "
+           "obsolete flags, replacement presence and id (any u32), modifier root ids (1-2, any u32); unwind 6",
+    stubs=["std::hash::RandomState::new -> fixed keys", "Arena::default() replaced by a directly built small arena"],
+    outside="gene_ids / omim_disease_ids / orpha_disease_ids, categories() (HashMap) and information_content() - all hash-container aggregates; sets with more than 3 members; "
+            "symbolic membership (iterating a set with symbolic members means symbolic arena indices)",
+    assumptions=["every member id resolves in the ontology (documented precondition of HpoSet)"],
+)
+H("C13", "set", "c13_child_nodes_all3", mem="heavy", tq=1500, args=FS, bounds="members {1,2,3}; every term has 1 ancestor with an arbitrary u32 id")
+H("C13", "set", "c13_child_nodes_all3_k2", tier="thorough", mem="heavy", tt=3600, deep=True, args=FS, bounds="members {1,2,3}; 2 ancestors each, arbitrary ids")
+H("C13", "set", "c13_child_nodes_1_3", tier="thorough", mem="heavy", tt=3600, args=FS, bounds="members {1,3}; 2 ancestors each, arbitrary ids")
+H("C13", "set", "c13_obsolete_all3", mem="heavy", tq=1500, args=FS, bounds="members {1,2,3}; obsolete flags symbolic")
+H("C13", "set", "c13_obsolete_2_3", tier="thorough", mem="heavy", tt=3600, args=FS, bounds="members {2,3}")
+H("C13", "set", "c13_replace_all3", mem="heavy", tq=1500, args=FS, bounds="members {1,2,3}; replacement presence and ids (any u32) symbolic")
+H("C13", "set", "c13_replace_1_3", tier="thorough", mem="heavy", tt=3600, args=FS, bounds="members {1,3}")
+H("C13", "set", "c13_modifier_all3", tier="thorough", mem="heavy", tt=5400, deep=True, args=FS, bounds="members {1,2,3}; 1 ancestor each and 1 modifier root, arbitrary u32 ids")
+H("C13", "set", "c13_modifier_1_2", tier="thorough", mem="heavy", tt=5400, args=FS, bounds="members {1,2}; 1 ancestor each, 1 root, arbitrary u32 ids; without_modifier only (8.5M SAT variables, ~20 min)")
+H("C13", "set", "c13_accessors", mem="medium", tq=900, args=FS, bounds="members {1,3}; probe id any u32")
+H("C13", "set", "c13_twin_must_fail", expect="fail", args=FS)
